@@ -487,6 +487,9 @@ def nested_catalogue():
         ("Matmul(Masked(Dense),Dense)", b_matmul(b_masked(b_dense(4, 5), [True, False, True, True], [True, True, False, True, False]), b_dense(3, 2)), {}),
         ("Sum(Identity,Zero4x4)", b_sum(b_identity(4), b_zero(4, 4)), {}),
         ("Triangular(Kron?)", None, {}),
+        # triangular factors of opposite orientation (e.g. the lazily built L @ L.mT): full index sweep + diagonal
+        ("Matmul(TriL,TriU)", b_matmul(b_tri(3, False), b_tri(3, True)), {}),
+        ("Matmul(TriU,TriL)", b_matmul(b_tri(3, True), b_tri(3, False)), {}),
     ]
 
 
